@@ -51,7 +51,22 @@ TWrite == /\ E.ev \in {"write", "write_bytes"}
              ELSE Accept(FixCk(Patch(data, E.off, E.v)), Patch(ghost, E.off, E.v), FALSE)
 TFix == E.ev = "update_checksum" /\ Accept(FixCk(data), ghost, FALSE)
 
-TNext == l <= NRec /\ l' = l + 1 /\ (TNew \/ TAppend \/ TSink \/ TWrite \/ TFix)
+\* a table grown by very long uniform slices (tens to hundreds of MiB): the contents are not logged; what C13 says of
+\* them that can be read off generic observations: the length grew by the slice, Length field = length, sum = 0, the
+\* header is otherwise untouched and the appended bytes are the slice
+TBig ==
+  /\ E.ev = "big"
+  /\ UNCHANGED <<data, ghost>>
+  /\ LET I(what) == [l |-> l, run |-> E.run, ev |-> E.ev, what |-> what, sig |-> "sdt/big_" \o E.via \o "/" \o what, n |-> E.n, len |-> E.len] IN
+     /\ Judge("C13", ~E.panic, I("unexpected_panic"))
+     /\ Judge("C13", E.len = E.expect_len /\ E.lenfn = E.len, I("len"))
+     /\ Judge("C13", Len(E.head) = 36 /\ Slice(E.head, 4, 4) = LE(E.len, 4), I("length_field_after_append"))
+     /\ Judge("C02", Len(E.head) = 36 /\ Slice(E.head, 4, 4) = LE(E.len, 4), I("length_field_after_append"))
+     /\ Judge("C13", E.sum8 = 0, I("checksum"))
+     /\ Judge("C01", E.sum8 = 0, I("checksum"))
+     /\ Judge("C13", E.tail_is_fill /\ Len(E.head) = 36 /\ Slice(E.head, 0, 4) = <<66, 73, 71, 95>> /\ Slice(E.head, 10, 6) = <<1, 2, 3, 4, 5, 6>>, I("contents"))
+
+TNext == l <= NRec /\ l' = l + 1 /\ (TNew \/ TAppend \/ TSink \/ TWrite \/ TFix \/ TBig)
 TSpec == TInit /\ [][TNext]_tvars
 Done == DoneMsg(l)
 =============================================================================
